@@ -9,7 +9,12 @@ from .. import spar
 from ._pipes import PipeScenario, parity, parse
 
 MOD = __name__
-T = 1.0
+
+
+def seconds(a):
+    if isinstance(a, str):
+        return float(a[:-2]) / 1000.0 if a.endswith("ms") else float(a[:-1])
+    return float(a)
 
 
 class WindowScenario(PipeScenario):
@@ -18,6 +23,8 @@ class WindowScenario(PipeScenario):
     def __init__(self, **p):
         super().__init__(**p)
         self.horizon = p.get("horizon", 2.0)
+        name, a = parse(p["nodes"][0])
+        self.T = seconds(a[1] if name == "partition" else a[0])
 
     def site(self):
         return self.params["nodes"][0].split(":")[0]
@@ -98,7 +105,7 @@ class WindowScenario(PipeScenario):
                 end = d if d is not None else self.loop.time()
                 if d is None and name == "timed_window_unique":
                     continue   # may have been dropped by the keep rule (checked above per window)
-                if end > t + T + self._blocked_time(t, end):
+                if end > t + self.T + self._blocked_time(t, end) + 1e-9:
                     return Violation("deadline", site, "", dict(info, element=x, arrived=t, delivered=d,
                                                                 blocked=self._blocked_time(t, end)))
             return None
@@ -114,7 +121,7 @@ class WindowScenario(PipeScenario):
                 return Violation("mixed-keys", site, "", info)
             if len(b) < n:
                 first = at[b[0]]
-                if t < first + T:
+                if t < first + self.T - 1e-9:
                     return Violation("spurious-batch", site, "partial-before-timeout", info)
         # order within and across batches per key == arrival order; conservation
         for key in set(keyf(x) for _, x in arrivals):
@@ -132,13 +139,13 @@ class WindowScenario(PipeScenario):
         for t, x in arrivals:
             d = delivered_at.get(x)
             end = d if d is not None else self.loop.time()
-            if end > t + T:
+            if end > t + self.T + 1e-9:
                 return Violation("deadline", site, "", dict(info, element=x, arrived=t, delivered=d))
         return None
 
     @staticmethod
     def _keep(win, a):
-        keyf = parity if a[1] == "parity" else (lambda x: x)
+        keyf = parity if a[1] in ("parity", "idx0") else (lambda x: x)
         keep = a[2]
         out = {}
         if keep == "first":
@@ -153,7 +160,8 @@ class WindowScenario(PipeScenario):
 
 def factory(key):
     node, kind, mode, n, horizon = key
-    marks = tuple(0.5 * i for i in range(1, int(horizon * 2) + 1))
+    grid = 0.25 if ("500ms" in node or ":0.5" in node) else 0.5
+    marks = tuple(grid * i for i in range(1, int(horizon / grid) + 1))
     return lambda: WindowScenario(nodes=(node,), kind=kind, mode=mode, n=n, marks=marks, horizon=horizon)
 
 
@@ -178,6 +186,15 @@ def plan(ctx):
                 node = "partition:%d:1:%s" % (n, k)
                 jobs.append(((node, "future", "burst", 3, 1.5), 0 if n == 1 else 1))
                 jobs.append(((node, "sync", "burst", 4, 2.0), 1))
+    # intervals / timeouts below one second and given as strings; a key taken by indexing
+    d = 1 if ctx.thorough else 0
+    for node in ("timed_window:0.5", "timed_window:500ms", "timed_window:1s", "timed_window_unique:500ms:parity:last",
+                 "partition:2:0.5:none", "partition:3:0.5:parity"):      # (partition takes numbers only)
+        jobs.append(((node, "sync", "burst", 3, 1.0 if "1s" not in node else 1.5), 1))
+        jobs.append(((node, "future", "burst", 3, 1.0 if "1s" not in node else 1.5), d))
+    for keep in ("first", "last"):
+        jobs.append((("timed_window_unique:1:idx0:%s" % keep, "sync", "burst", 4, 2.0), 1))
+        jobs.append((("timed_window_unique:1:idx0:%s" % keep, "future", "burst", 3, 1.5), 1))
     return jobs
 
 
